@@ -49,7 +49,8 @@ MonNext ==
                 ok |-> IF Has("ok") THEN Ev.ok ELSE TRUE,
                 ret |-> IF Has("ret") THEN Ev.ret ELSE "",
                 ids |-> IF Has("ids") THEN Ev.ids ELSE <<>>,
-                opens |-> IF Has("opens") THEN Ev.opens ELSE 1]
+                opens |-> IF Has("opens") THEN Ev.opens ELSE 1,
+                reads |-> IF Has("reads") THEN Ev.reads ELSE [h \in H |-> TRUE]]
 
 MonSpec == MonInit /\ [][MonNext]_mvars
 
@@ -58,6 +59,8 @@ BurstSharesOneInstance ==
     last.act = "Burst" =>
         /\ \A i, j \in 1..Len(last.ids) : last.ids[i] = last.ids[j]
         /\ last.opens = 1
+\* replay: after every step the driver reads through the Layer of every caller that holds one
+HeldReadsWork == \A h \in H : hs[h].pc = "held" => last.reads[h]
 \* free run: what a holder observed through its own Layer
 SampleServes == last.act = "Sample" => last.ok
 =============================================================================
